@@ -7,13 +7,18 @@
  *   g_fp_wit_{start,end,c,state}   the same for the gk-th call (gk = arbitrary witness index)
  *   g_fp_wit_prev_{end,c}          (end, c) of the call BEFORE the gk-th one (adjacency law)
  *   g_fp_state0                 urlenp->_state on entry of htp_urlenp_parse_partial
- * Effect counters of the piece handler's callees (stubs of unit htp_urlenp_add_field_piece):
- *   g_bb_n      number of pieces in the string builder (bstr_builder_size)
- *   g_bb_app    bstr_builder_append_mem calls, g_bb_clr bstr_builder_clear calls, g_bb_tostr to_str calls
- *   g_pairs     htp_table_addn calls (= pairs reported), g_pair_name/g_pair_value its last arguments
- *   g_dec_n     decoder calls;  g_dec_a / g_dec_b the first / second decoded string
- *   g_live      number of bstr objects allocated by stubs and not yet freed or handed over
- *   g_fresh_a/b/c  identities of the bstrs returned by bstr_dup_mem / to_str, bstr_dup_c #1, #2
+ *   g_fp_bj                     the input byte at witness position gj (contract requires g_fp_bj == data[gj]);
+ *                               a scalar copy, because re-reading data[gj] in every invariant costs 130 s instead of 6 s
+ * Effect log of the piece handler's callees (stubs used by unit htp_urlenp_add_field_piece):
+ *   g_bb_n                       abstract builder state = number of pieces (what bstr_builder_size returns)
+ *   g_bb_app, g_bb_app_ptr/len   bstr_builder_append_mem calls and the last (ptr, len)
+ *   g_bb_clr, g_bb_tostr         bstr_builder_clear / bstr_builder_to_str calls
+ *   g_dupm_n, g_dupm_ptr/len     bstr_dup_mem calls and the last (ptr, len)
+ *   g_field                      the bstr returned by to_str / dup_mem (NULL: none or allocation failed)
+ *   g_dupc_n, g_dupc_a, g_dupc_b bstr_dup_c("") calls and the first / second result
+ *   g_free_n, g_freed            bstr_free calls on non-NULL and the last argument
+ *   g_dec_n, g_dec_a, g_dec_b    decoder calls and the first / second decoded string
+ *   g_pairs, g_pair_name/value/rc  htp_table_addn calls (= pairs reported), last arguments and result
  */
 #ifndef GHOST_C15_H
 #define GHOST_C15_H
@@ -21,12 +26,12 @@
 #define GHOSTS_C15(X) \
     X(size_t, g_fp_n) X(size_t, g_fp_last_start) X(size_t, g_fp_last_end) X(int, g_fp_last_c) X(int, g_fp_last_state) \
     X(size_t, g_fp_wit_start) X(size_t, g_fp_wit_end) X(int, g_fp_wit_c) X(int, g_fp_wit_state) \
-    X(size_t, g_fp_wit_prev_end) X(int, g_fp_wit_prev_c) X(int, g_fp_state0) \
-    X(size_t, g_bb_n) X(size_t, g_bb_app) X(size_t, g_bb_clr) X(size_t, g_bb_tostr) X(size_t, g_bb_app_len) \
-    X(size_t, g_pairs) X(const void *, g_pair_name) X(const void *, g_pair_value) \
+    X(size_t, g_fp_wit_prev_end) X(int, g_fp_wit_prev_c) X(int, g_fp_state0) X(int, g_fp_bj) \
+    X(size_t, g_bb_n) X(size_t, g_bb_app) X(const void *, g_bb_app_ptr) X(size_t, g_bb_app_len) X(size_t, g_bb_clr) X(size_t, g_bb_tostr) \
+    X(size_t, g_dupm_n) X(const void *, g_dupm_ptr) X(size_t, g_dupm_len) X(const void *, g_field) \
+    X(size_t, g_dupc_n) X(const void *, g_dupc_a) X(const void *, g_dupc_b) X(size_t, g_free_n) X(const void *, g_freed) \
     X(size_t, g_dec_n) X(const void *, g_dec_a) X(const void *, g_dec_b) \
-    X(size_t, g_dupc_n) X(size_t, g_free_n) X(const void *, g_freed) \
-    X(const void *, g_field) X(const void *, g_dupc_a) X(const void *, g_dupc_b)
+    X(size_t, g_pairs) X(const void *, g_pair_name) X(const void *, g_pair_value) X(int, g_pair_rc)
 
 #define C15_KEY 1
 #define C15_VALUE 2
@@ -47,6 +52,6 @@
     (g_fp_wit_state == C15_KEY || g_fp_wit_state == C15_VALUE) && \
     (g_fp_wit_end < (L) ? g_fp_wit_c == (data)[g_fp_wit_end] : g_fp_wit_c == -1) && \
     (g_fp_wit_c != -1 ==> C15_DELIM(g_fp_wit_state, sep, g_fp_wit_c)) && \
-    ((g_fp_wit_start <= gj && gj < g_fp_wit_end) ==> !C15_DELIM(g_fp_wit_state, sep, (data)[gj])))
+    ((g_fp_wit_start <= gj && gj < g_fp_wit_end) ==> !C15_DELIM(g_fp_wit_state, sep, g_fp_bj)))
 
 #endif
